@@ -239,7 +239,7 @@ def gen(seed, tier):
                     live[i]['done'] = True
         elif k < 0.73 and live:
             i = rng.randrange(len(live))
-            ops.append(['end', i, rng.choice(('close', 'drop'))])
+            ops.append(['end', i, rng.choice(('close', 'drop', 'throw'))])
             live[i]['done'] = True
         elif k < 0.93:
             # a removal; half of them aimed at a record next to the cursor of a suspended enumeration
